@@ -7,6 +7,7 @@
 package main
 
 import (
+	"bytes"
 	"errors"
 	"fmt"
 	"io"
@@ -112,6 +113,23 @@ type Op struct {
 	Wh   int    `json:"wh,omitempty"`
 	Var  int    `json:"var,omitempty"`
 	Src  []Src  `json:"src,omitempty"`
+	Rel  int    `json:"rel,omitempty"` // wpos: 1,2,3 = position Size-W-1, Size-W, Size-W+1 (resolved to P when the op runs)
+}
+
+// the stream an UnmarshalStream reads: the encoding of gen(Seed, N), cut to P bytes when Var == 1
+func unmarshalStream(o Op) []byte {
+	enc := encBytes(gen(o.Seed, o.N))
+	if o.Var == 1 {
+		t := o.P
+		if t >= len(enc) {
+			t = len(enc) - 1
+		}
+		if t < 0 {
+			t = 0
+		}
+		enc = enc[:t]
+	}
+	return enc
 }
 
 type readRec struct {
@@ -193,6 +211,13 @@ func (o Op) coq(r Ret) string {
 			it[i] = fmt.Sprintf("(%s,%d,%d)", genTerm(x.seed, x.n), x.err, x.cap)
 		}
 		return "(OReadFrom " + vh.List(it) + ")"
+	case "unmarshal":
+		if o.Var == 0 {
+			return "(OUnmarshal (Some " + genTerm(o.Seed, o.N) + ") 0)"
+		}
+		return fmt.Sprintf("(OUnmarshal None %d)", r.e)
+	case "marshal":
+		return "OMarshal"
 	}
 	panic("unknown op " + o.K)
 }
@@ -343,6 +368,13 @@ func exec(c *data.Chunk, o Op) (r Ret) {
 			err = c.WriteUint64Pos(o.P, o.V)
 		}
 		return Ret{kind: "err", e: ecode(err)}
+	case "unmarshal":
+		err := c.UnmarshalStream(data.NewReader(bytes.NewReader(unmarshalStream(o))))
+		return Ret{kind: "err", e: ecode(err)}
+	case "marshal":
+		var d data.Chunk
+		err := c.MarshalStream(&d)
+		return Ret{kind: "data", d: append([]byte(nil), d.Payload()...), e: ecode(err)}
 	case "read":
 		p := make([]byte, o.N)
 		n, err := c.Read(p)
@@ -588,7 +620,27 @@ func (m *queue) apply(limit int, o Op, r Ret, before, after snap) (what, key str
 				return bad(fmt.Sprintf("typed write (%s) failed with code %d on a Chunk without limit", o.K, r.e), "typed-write-error-without-limit:"+o.K)
 			}
 		}
+	case "unmarshal":
+		if o.Var == 0 {
+			if r.e != 0 {
+				return bad(fmt.Sprintf("UnmarshalStream of a complete stream (%d payload bytes) failed with code %d", o.N, r.e), "unmarshal-good-refused")
+			}
+			m.q, m.past = append([]byte(nil), gen(o.Seed, o.N)...), nil
+		} else {
+			if r.e == 0 {
+				return bad(fmt.Sprintf("UnmarshalStream of a stream cut to %d bytes reported no error", len(unmarshalStream(o))), "unmarshal-truncated-accepted")
+			}
+			m.q, m.past = nil, nil
+		}
+	case "marshal":
+		if r.e != 0 || !eqb(r.d, encBytes(m.q)) {
+			return bad(fmt.Sprintf("MarshalStream wrote %d bytes (code %d), not the encoding of the %d unread bytes", len(r.d), r.e, len(m.q)), "marshal-data")
+		}
 	case "wpos":
+		if r.e != 0 && o.P >= 0 && o.P+o.W <= before.size && (limit <= 0 || o.P+o.W <= limit) {
+			return bad(fmt.Sprintf("Write*Pos(%d) of %d bytes inside a buffer of %d bytes (Limit %d) refused with code %d", o.P, o.W, before.size, limit, r.e),
+				fmt.Sprintf("wpos-refused-in-range:%d", o.W))
+		}
 		if r.e == 0 {
 			// positional store into the buffer at absolute index P
 			rp := before.size - len(m.q)
@@ -723,6 +775,9 @@ func (m *queue) apply(limit int, o Op, r Ret, before, after snap) (what, key str
 		m.q = append(m.q, all[:t]...)
 	}
 	// ---- what must hold after every operation
+	if after.rpos > after.size {
+		return fmt.Sprintf("after %s the read cursor (%d) is beyond the buffer (%d bytes)", o.K, after.rpos, after.size), "cursor-beyond-size:" + o.K
+	}
 	if !eqb(after.pay, m.q) {
 		return fmt.Sprintf("after %s the unread bytes (Payload, %d bytes) are not what the byte queue holds (%d bytes)", o.K, len(after.pay), len(m.q)), "payload-mismatch:" + o.K
 	}
@@ -812,6 +867,11 @@ func runSeq(s Seq, wantTerms bool) result {
 	res := result{tags: map[string]bool{}, panicAt: -1}
 	before, _ := take(c)
 	for i, o := range s.Ops {
+		if o.K == "wpos" && o.Rel != 0 {
+			o.P = clampPos(c.Size() - o.W + o.Rel - 2)
+			o.Rel = 0
+			s.Ops[i] = o
+		}
 		r := exec(c, o)
 		var after snap
 		ok := true
@@ -1000,7 +1060,23 @@ func genOp(rng *vh.Rand, p profile, lim int, approxLen *int) Op {
 		return rng.Pick(p.sizes)
 	}
 	w := []int{1, 2, 4, 8}[rng.Intn(4)]
-	switch x := rng.Intn(100); {
+	switch x := rng.Intn(107); {
+	case x >= 100 && x < 102:
+		return Op{K: "wpos", W: w, Rel: 1 + rng.Intn(3), V: mask(w, rng.U64()), Var: rng.Intn(2)}
+	case x >= 102 && x < 106:
+		n := size()
+		if lim > 0 && n > lim {
+			n = lim // UnmarshalStream does not look at the Limit; the Limit theorems exclude it
+		}
+		o := Op{K: "unmarshal", Seed: rng.Intn(251), N: n}
+		if rng.Intn(3) == 0 {
+			o.Var, o.P = 1, rng.Intn(n+3)
+			n = 0
+		}
+		*approxLen = n
+		return o
+	case x == 106:
+		return Op{K: "marshal"}
 	case x < 22:
 		n := size()
 		*approxLen += n
@@ -1098,6 +1174,26 @@ func genOp(rng *vh.Rand, p profile, lim int, approxLen *int) Op {
 		return Op{K: "wpos", W: w, P: rng.Intn(*approxLen + 3), V: mask(w, rng.U64()), Var: rng.Intn(2)}
 	}
 }
+func um(n, cut int) Op {
+	o := Op{K: "unmarshal", Seed: 11, N: n}
+	if cut >= 0 {
+		o.Var, o.P = 1, cut
+	}
+	return o
+}
+
+// write n bytes, read k, then a positional write of every width at 0 and around Size-w, then read everything
+func wposGrid(n, k int) []Op {
+	ops := []Op{{K: "write", Seed: 3, N: n}, {K: "read", N: k}}
+	for _, w := range []int{1, 2, 4, 8} {
+		ops = append(ops, Op{K: "wpos", W: w, P: 0, V: mask(w, 0x0102030405060708)})
+		for rel := 1; rel <= 3; rel++ {
+			ops = append(ops, Op{K: "wpos", W: w, Rel: rel, V: mask(w, 0xF1F2F3F4F5F6F7F8)})
+		}
+	}
+	return append(ops, Op{K: "marshal"}, Op{K: "read", N: n + 1})
+}
+
 func clampPos(n int) int {
 	if n < 0 {
 		return 0
@@ -1167,7 +1263,19 @@ func corpus() []Seq {
 		{Limit: 0, Ops: []Op{{K: "readfrom", Src: []Src{{1, 16385, 0}, {2, 3, 1}}}, rd(16390)}},
 		{Limit: 10, Ops: []Op{{K: "readfrom", Src: []Src{{1, 4, 0}, {2, 4, 0}, {3, 4, 0}}}, rd(20)}},
 		{Limit: 65, Ops: []Op{w(60), rd(50), {K: "readfrom", Src: []Src{{1, 100, 1}}}, rd(200)}},
-		// positional writes
+		// positional writes: every width at 0, Size-w-1, Size-w (the last w bytes), Size-w+1, fresh and after a read, with and without Limit
+		{Limit: 0, Ops: wposGrid(20, 0)},
+		{Limit: 0, Ops: wposGrid(20, 7)},
+		{Limit: 20, Ops: wposGrid(20, 0)},
+		{Limit: 64, Ops: wposGrid(9, 3)},
+		// UnmarshalStream into a fresh / partly read / drained Chunk, from complete and cut streams, then reuse; MarshalStream
+		{Limit: 0, Ops: []Op{um(8, -1), rd(3), {K: "marshal"}, um(5, -1), rd(2), {K: "rfixed", W: 2}, rd(9), um(0, -1), rd(1), w(3), rd(3)}},
+		{Limit: 0, Ops: []Op{w(8), rd(5), um(8, 4), w(8), rd(8), w(70), rd(100)}},
+		{Limit: 0, Ops: []Op{w(8), rd(5), um(8, 0), {K: "marshal"}, w(100), rd(200)}},
+		{Limit: 0, Ops: []Op{w(8), rd(8), um(300, 2), rd(1), um(300, -1), rd(150), um(70, 40), {K: "wfixed", W: 4, V: 9}, {K: "marshal"}, rd(10)}},
+		{Limit: 0, Ops: []Op{w(80), rd(70), um(6, -1), rd(2), {K: "wpos", W: 4, Rel: 2, V: 0xA1B2C3D4}, rd(10), {K: "marshal"}}},
+		{Limit: 16, Ops: []Op{w(12), rd(6), um(10, -1), rd(4), w(10), rd(20), um(10, 5), w(10), rd(20)}},
+		{Limit: 0, Ops: []Op{um(16385, -1), rd(16000), {K: "marshal"}, um(16385, 9000), w(1), rd(2)}},
 		{Limit: 0, Ops: []Op{w(10), rd(3), {K: "wpos", W: 2, P: 5, V: 0xABCD}, {K: "wpos", W: 8, P: 3, V: 1}, {K: "wpos", W: 1, P: 9, V: 7}, rd(10)}},
 		// NewChunk with a preset buffer
 		{Limit: 0, Init: &Src{3, 5, 0}, Ops: []Op{rd(2), w(3), rd(10)}},
